@@ -141,6 +141,26 @@ def traced(nodes, ctx, detail, name, pipeline=None):
     return res, recs, p, drv
 
 
+def reused_pipeline_traces(nodes, ctx, detail, name):
+    """one Pipeline object (and its driver) run twice: the two traces, split at pipeline_start"""
+    global evaluations
+    evaluations += 1
+    path = tmp / f"{name}_{detail}_reused_{evaluations}.jsonl"
+    drv = JsonlTraceDriver(str(path), detail=detail)
+    p = Pipeline(copy.deepcopy(nodes), trace=drv)
+    r1, _ = outcome(nodes, ctx, pipeline=p)
+    r2, _ = outcome(nodes, ctx, pipeline=p)
+    recs = [json.loads(l) for l in path.read_text().splitlines() if l.strip()] if path.exists() else []
+    runs, cur = [], None
+    for r in recs:
+        if r.get("record_type") == "pipeline_start":
+            cur = []
+            runs.append(cur)
+        if cur is not None:
+            cur.append(r)
+    return r1, r2, runs
+
+
 if os.environ.get("C10_FRESH"):
     # child mode: one traced run in a fresh interpreter, nothing else has run before it
     want, detail = os.environ["C10_FRESH"].split("|")
@@ -198,9 +218,23 @@ for name, nodes, ctx in CONFIGS:
             failures.append({"class": "trace-not-reproducible", "config": name, "detail": detail, "first_differing_record": diff,
                              "a": json.dumps(strip(t1)[diff], sort_keys=True)[:300] if diff is not None else len(t1),
                              "b": json.dumps(strip(t2)[diff], sort_keys=True)[:300] if diff is not None else len(t2)})
+    # the same Pipeline object run twice: same outcome, same trace (the ids in it are not volatile fields)
+    if not callable(ctx):
+        try:
+            q1, q2, runs = reused_pipeline_traces(nodes, ctx, "hash", name)
+            distinct.add((name, "reused-pipeline"))
+            if q1 != q2 or q1 != base:
+                failures.append({"class": "tracing-changes-the-outcome", "config": name, "detail": "hash", "reused_pipeline": True, "untraced": base, "first": q1, "second": q2})
+            elif len(runs) == 2 and strip(runs[0]) != strip(runs[1]):
+                diff = next((i for i, (a, b) in enumerate(zip(strip(runs[0]), strip(runs[1]))) if a != b), None)
+                failures.append({"class": "trace-not-reproducible", "config": name, "detail": "hash", "reused_pipeline": True, "first_differing_record": diff,
+                                 "a": json.dumps(strip(runs[0])[diff], sort_keys=True)[:300] if diff is not None else len(runs[0]),
+                                 "b": json.dumps(strip(runs[1])[diff], sort_keys=True)[:300] if diff is not None else len(runs[1])})
+        except Exception as e:       # noqa
+            failures.append({"class": "reused-pipeline-case-raised", "config": name, "exc": repr(e)[:200]})
     if len(samples) < 2:
         samples.append({"config": name, "outcome": base[:2], "records": [r["record_type"] for r in t1]})
-print(json.dumps({"bound": "25 configurations (plain, model fitting, generated classes, two whose parameters are non-finite floats, two whose string parameters hold a lone surrogate / NUL / astral characters, four whose context holds one-shot iterators / generators consumed by the first or a later node, one whose data object has a raising __len__, three failing with non-JSON / wrapped / empty exception arguments, two with non-JSON parameter values (mixed key types, sets), identical nodes, 3 sweeps, unresolvable parameter, type gate, context flow with rename/delete, unknown parameter) x 4 detail levels; unrelated runs in between; 4 configurations x 2 detail levels compared with a fresh interpreter after traced runs at other detail levels",
+print(json.dumps({"bound": "25 configurations (plain, model fitting, generated classes, two whose parameters are non-finite floats, two whose string parameters hold a lone surrogate / NUL / astral characters, four whose context holds one-shot iterators / generators consumed by the first or a later node, one whose data object has a raising __len__, three failing with non-JSON / wrapped / empty exception arguments, two with non-JSON parameter values (mixed key types, sets), identical nodes, 3 sweeps, unresolvable parameter, type gate, context flow with rename/delete, unknown parameter) x 4 detail levels; unrelated runs in between; each configuration also run twice through one reused Pipeline object; 4 configurations x 2 detail levels compared with a fresh interpreter after traced runs at other detail levels",
                   "evaluations": evaluations, "distinct_nontrivial": len(distinct),
                   "rule": "distinct = (configuration, detail level); outcome = returned data/context or exception type+message; traces compared after removing run_id, timestamps, timing, seq",
                   "failures": failures[:20], "samples": samples}, default=str))
